@@ -145,7 +145,8 @@ ExplainOK(g, sy) ==
         ELSE IF Mode(r, grp) = "now"
              THEN /\ NowOK(r, grp)
                   /\ (late # <<>> /\ NextIsRound) => CarryMatch(Log[l + 1].obs[r], 0, Append(carry[r], late), 1)
-        ELSE IF NextIsRound /\ r \notin StalledNext THEN CarryMatch(Log[l + 1].obs[r], 0, Append(carry[r], grp), 1) ELSE TRUE
+        \* (the backlog of a client that is not being read is compared when the round ends, if it is still there)
+        ELSE IF NextIsRound /\ r \notin StalledNext \cup StalledNow THEN CarryMatch(Log[l + 1].obs[r], 0, Append(carry[r], grp), 1) ELSE TRUE
 ExplainS(g, sy) ==
   /\ \/ ExplainOK(g, sy)
      \/ /\ Debug
